@@ -15,6 +15,7 @@ import (
 	"os/exec"
 	"path/filepath"
 	"sort"
+	"strconv"
 	"strings"
 	"sync"
 	"time"
@@ -295,6 +296,7 @@ func checkC17(e *Env) {
 	wordsCompared := 0
 	pairs := 0
 	rebuilds := 0
+	voidE2E := newCounter()
 
 	runs := e.c17runs()
 	parallel(len(runs), max(1, e.Workers/2), func(ri int) {
@@ -431,71 +433,100 @@ func checkC17(e *Env) {
 			// end to end: the generated files replace internal/wordlist in a scratch copy of
 			// the repository, which must compile and expose, per language, the words served
 			// under that language's file name
-			repoCopy := filepath.Join(dir, "repo")
-			if err := copyTree(e.Repo, repoCopy, func(rel string) bool { return rel == ".git" || strings.HasPrefix(rel, "internal/wordlist/") }); err != nil {
-				fatalInconclusive("copying the repository: %v", err)
-			}
-			os.MkdirAll(filepath.Join(repoCopy, "internal", "wordlist"), 0755)
-			for _, f := range ref.Files {
-				b, _ := os.ReadFile(filepath.Join(out, f+".go"))
-				os.WriteFile(filepath.Join(repoCopy, "internal", "wordlist", f+".go"), b, 0644)
-			}
-			sub := &Env{Prop: e.Prop, Tier: e.Tier, Seed: e.Seed, Verif: e.Verif, Harness: e.Harness, Repo: repoCopy, Scratch: dir, drv: map[string]string{}}
-			drv, berr := sub.tryBuildDrv()
-			if berr != "" {
-				viol("the repository does not compile with the generated files: "+oneLine(berr, 400), berr)
-				return
-			}
-			var ops []plan.Op
-			type probe struct{ lang, idx int }
-			var probes []probe
-			r := rng.New(e.Seed, "C17-e2e-"+itoa(ri))
-			for lang := 0; lang < ref.NLang; lang++ {
-				for i := 0; i < 2048; i++ {
-					first := make([]int, 11)
-					for k := range first {
-						first[k] = r.Intn(2048)
-					}
-					first[0] = i
-					ops = append(ops, plan.Op{I: len(ops), Fn: "enc", L: int64(lang), E: hx(entropyFromIndices(16, first, 0))})
-					probes = append(probes, probe{lang, i})
+			observe := func(name string, file func(f string, lang int) []byte) string {
+				repoCopy := filepath.Join(dir, name)
+				if err := copyTree(e.Repo, repoCopy, func(rel string) bool { return rel == ".git" || strings.HasPrefix(rel, "internal/wordlist/") }); err != nil {
+					fatalInconclusive("copying the repository: %v", err)
 				}
+				defer os.RemoveAll(repoCopy)
+				os.MkdirAll(filepath.Join(repoCopy, "internal", "wordlist"), 0755)
+				for lang, f := range ref.Files {
+					os.WriteFile(filepath.Join(repoCopy, "internal", "wordlist", f+".go"), file(f, lang), 0644)
+				}
+				sub := &Env{Prop: e.Prop, Tier: e.Tier, Seed: e.Seed, Verif: e.Verif, Harness: e.Harness, Repo: repoCopy, Scratch: filepath.Join(dir, name+"-build"), drv: map[string]string{}}
+				os.MkdirAll(sub.Scratch, 0755)
+				defer os.RemoveAll(sub.Scratch)
+				drv, berr := sub.tryBuildDrv()
+				if berr != "" {
+					return "the repository does not compile with the generated files: " + oneLine(berr, 400)
+				}
+				var ops []plan.Op
+				type probe struct{ lang, idx int }
+				var probes []probe
+				r := rng.New(e.Seed, "C17-e2e-"+itoa(ri))
+				for lang := 0; lang < ref.NLang; lang++ {
+					for i := 0; i < 2048; i++ {
+						first := make([]int, 11)
+						for k := range first {
+							first[k] = r.Intn(2048)
+						}
+						first[0] = i
+						ops = append(ops, plan.Op{I: len(ops), Fn: "enc", L: int64(lang), E: hx(entropyFromIndices(16, first, 0))})
+						probes = append(probes, probe{lang, i})
+					}
+				}
+				res, died := e.RunProc(drv, ops, nil, 0)
+				if died != "" {
+					return "the rebuilt repository crashed while emitting words: " + oneLine(died, 300)
+				}
+				for k, pr := range probes {
+					served := nonEmptyLines(run.inputs[ref.Files[pr.lang]])
+					w := strings.Split(string(unhex(res[k].Out)), ref.Sep(pr.lang))[0]
+					if res[k].Panic != "" || w != served[pr.idx] {
+						return fmt.Sprintf("after regenerating, %s index %d emits %s but %s.txt line %d is %s: the generated file feeds the wrong language", ref.Names[pr.lang], pr.idx, preview(w), ref.Files[pr.lang], pr.idx, preview(served[pr.idx]))
+					}
+				}
+				obs.Add("words_observed_through_rebuilt_api", len(probes))
+				return ""
 			}
-			res, died := e.RunProc(drv, ops, nil, 0)
-			if died != "" {
-				viol("the rebuilt repository crashed while emitting words: "+oneLine(died, 300), nil)
-				return
-			}
-			for k, pr := range probes {
-				served := nonEmptyLines(run.inputs[ref.Files[pr.lang]])
-				w := strings.Split(string(unhex(res[k].Out)), ref.Sep(pr.lang))[0]
-				if w != served[pr.idx] {
-					viol(fmt.Sprintf("after regenerating, %s index %d emits %s but %s.txt line %d is %s: the generated file feeds the wrong language", ref.Names[pr.lang], pr.idx, preview(w), ref.Files[pr.lang], pr.idx, preview(served[pr.idx])), nil)
+			why := observe("repo", func(f string, lang int) []byte {
+				b, _ := os.ReadFile(filepath.Join(out, f+".go"))
+				return b
+			})
+			if why != "" {
+				// control: the same words written into the package by the harness itself (same
+				// variable names as the committed files). If the library misreports those too,
+				// the API cannot show what the tool generated and this run's end-to-end
+				// observation is void; the tool is at fault only when the control is clean.
+				control := observe("control", func(f string, lang int) []byte {
+					var sb strings.Builder
+					sb.WriteString("package wordlist\n\nvar " + ref.Names[lang] + " = []string{\n")
+					for _, w := range nonEmptyLines(run.inputs[f]) {
+						sb.WriteString("\t" + strconv.Quote(w) + ",\n")
+					}
+					sb.WriteString("}\n")
+					return []byte(sb.String())
+				})
+				if control == "" {
+					viol(why, nil)
 					return
 				}
+				obs.Inc("end_to_end_runs_void_because_the_library_misreports_harness_written_lists_too")
+				voidE2E.Inc(oneLine(control, 120))
+			} else {
+				mu.Lock()
+				rebuilds++
+				mu.Unlock()
 			}
-			mu.Lock()
-			rebuilds++
-			mu.Unlock()
-			obs.Add("words_observed_through_rebuilt_api", len(probes))
 		}
 		smp.Add(map[string]any{"run": run.name, "shape": run.shape, "end_to_end_rebuild": run.e2e, "requests": got[:2], "example_input": preview(run.inputs["korean"])})
 	})
 
-	if e.Violations() == 0 && (pairs < 20 || rebuilds == 0) {
+	if e.Violations() == 0 && (pairs < 20 || rebuilds+voidE2E.Total() == 0) {
 		fatalInconclusive("C17: %d (file, input) pairs and %d rebuilds observed", pairs, rebuilds)
 	}
 	e.WriteEvidence("exploration", map[string]any{
 		"evaluations":                 pairs,
 		"distinct_nontrivial":         dist.Len(),
-		"rule":                        "a case is one (target file, upstream body) pair; one run of the tool (built from the tree with the verif fetch-redirect hook, run in a scratch directory against a loopback HTTP server operated by the parent) yields ten pairs; inputs: the canonical lists, and seeded LF-separated files of letters and combining marks (Latin, Greek, Cyrillic, Hebrew, Arabic, Devanagari, Thai, Hangul jamo and syllables, kana, CJK incl. plane 2, ligatures, full-width and mathematical letters; marks also leading, doubled and in non-canonical order; Go keywords; words up to 3000 letters) with 0, 1, 2, 17, 300, 2048 and 5000 words, with and without trailing newline and with blank lines at start, middle, end and in runs; every generated file is parsed and type-checked (all ten as one package), its literals compared byte-for-byte with the non-empty input lines, its variable name compared with the committed file's, the request log compared with the ten expected paths; runs with ten 2048-word inputs are additionally rebuilt into a scratch copy of the repository whose API must emit, per language, the words served under that language's file name; non-trivial = every pair; distinct by (file, body)",
+		"rule":                        "a case is one (target file, upstream body) pair; one run of the tool (built from the tree with the verif fetch-redirect hook, run in a scratch directory against a loopback HTTP server operated by the parent) yields ten pairs; inputs: the canonical lists, and seeded LF-separated files of letters and combining marks (Latin, Greek, Cyrillic, Hebrew, Arabic, Devanagari, Thai, Hangul jamo and syllables, kana, CJK incl. plane 2, ligatures, full-width and mathematical letters; marks also leading, doubled and in non-canonical order; Go keywords; words up to 3000 letters) with 0, 1, 2, 17, 300, 2048 and 5000 words, with and without trailing newline and with blank lines at start, middle, end and in runs; every generated file is parsed and type-checked (all ten as one package), its literals compared byte-for-byte with the non-empty input lines, its variable name compared with the committed file's, the request log compared with the ten expected paths; runs with ten 2048-word inputs are additionally rebuilt into a scratch copy of the repository whose API must emit, per language, the words served under that language's file name (when it does not, the same words written into the package by the harness are observed as a control: the tool is blamed only when the control is clean); non-trivial = every pair; distinct by (file, body)",
 		"samples":                     smp.List(),
 		"tool_runs":                   obs.Get("tool_runs"),
 		"observations":                obs.Map(),
 		"words_compared":              wordsCompared,
 		"scratch_repository_rebuilds": rebuilds,
-		"requests_per_file":           requests.Map(),
-		"input_shapes":                len(shapes.Map()),
+		"end_to_end_runs_void_because_the_library_misreports_harness_written_lists_too": voidE2E.Map(),
+		"requests_per_file": requests.Map(),
+		"input_shapes":      len(shapes.Map()),
 	}, []string{
 		"loopback HTTP works in the sandbox; the hook only rewrites scheme and host of the tool's requests, the path (file name to variable mapping) is the tool's own",
 		"characters outside the property's domain (quotes, <, &, backslash, CR) are not generated",
